@@ -131,3 +131,24 @@ Theorem C26_provider_cache_stale_after_graph_update :
   offered PRand (pgr s') 30%N [] (ptb s') t_K = [0%N; 1%N].
 Proof. exact provider_cache_stale_after_graph_update. Qed.
 Print Assumptions C26_provider_cache_stale_after_graph_update.
+
+(* --- update_return_type moves the registration of a generator ---------------------------------
+   (drop under the old return type, add under the new one): afterwards the generator is registered
+   under its new return type, under nothing else if it was registered under the old one only, and
+   the random provider offers it only for requests its new return type may be a subtype of. *)
+Theorem C26_update_registers_new : forall tb g old new,
+  exists e, In e (tb_update tb g old new) /\ fst e = new /\ In g (snd e).
+Proof. exact update_registers_new. Qed.
+Print Assumptions C26_update_registers_new.
+
+Theorem C26_update_only_new : forall tb g old new,
+  (forall e, In e tb -> In g (snd e) -> fst e = old) ->
+  forall e, In e (tb_update tb g old new) -> In g (snd e) -> fst e = new.
+Proof. exact update_only_new. Qed.
+Print Assumptions C26_update_only_new.
+
+Theorem C26_updated_generator_compatible : forall gph tb g old new typ,
+  (forall e, In e tb -> In g (snd e) -> fst e = old) ->
+  In g (offered_r gph (tb_update tb g old new) typ) -> is_maybe_subtype gph new typ = true.
+Proof. exact updated_generator_compatible. Qed.
+Print Assumptions C26_updated_generator_compatible.
